@@ -2856,13 +2856,10 @@ class SHA1Reader(BinaryIO):
         """
         stored = self.f.read(20)
         # If git option index.skipHash is set the index will be empty
+        # Only a complete all-zero trailer stands for "no checksum"; a short
+        # (truncated or already consumed) trailer is damage.
         if stored != self.sha1.digest() and (
-            not allow_empty
-            or (
-                len(stored) == 20
-                and sha_to_hex(RawObjectID(stored))
-                != b"0000000000000000000000000000000000000000"
-            )
+            not allow_empty or stored != b"\x00" * self.sha1.digest_size
         ):
             raise ChecksumMismatch(
                 self.sha1.hexdigest(),
